@@ -70,6 +70,18 @@ def gen(tier, rng):
     scale = 1 if tier == 'quick' else 10
     cs = []
     add = cs.append
+    # --- reciprocals: recip_ok is checked on structured divisors (<= 2 runs of ones, 2^63 + 2^k +- 1, extremes, uniform)
+    ds = {1, 2, 3, MAXW, MAXW - 1, 1 << 63, (1 << 63) + 1, (1 << 63) - 1}
+    for i in range(64):
+        for j in range(i + 1):
+            if rng.random() < (0.15 if tier == 'quick' else 1.0):
+                ds.add(((1 << (i + 1)) - 1) ^ ((1 << j) - 1))            # one run of ones, bits j..i
+        ds.add((1 << 63) + (1 << i)); ds.add((1 << 63) + (1 << i) - 1); ds.add(((1 << 63) + (1 << i) + 1) & MAXW)
+        ds.add(MAXW ^ (1 << i)); ds.add((1 << i) | 1)
+    for _ in range(400 * scale):
+        ds.add(word(rng) or 1); ds.add(rng.getrandbits(64) | (1 << 63)); ds.add(rng.getrandbits(rng.randrange(1, 65)) or 1)
+    for d in sorted(x & MAXW for x in ds):
+        if d: add(Case('recip.new', [d], dbg=(d % 7 == 0)))
     # --- division by one limb
     for n in NS:
         reps = max(6, (60 if n <= 8 else 20) * scale)
